@@ -34,6 +34,17 @@ func init() {
 		},
 		Oracles: func() []Oracle { return []Oracle{&CapacityOracle{prop: "C01"}} },
 	}
+	Props["C14"] = PropDef{
+		Gen: func(t *rapid.T, thorough bool) *Script {
+			o := mixedOpts(thorough)
+			if chance(t, "faultfree", 50) {
+				o.Faults, o.BindFailures = false, false
+				return GenScript(t, "C14", "mixed-faultfree", o)
+			}
+			return GenScript(t, "C14", "mixed-faults", o)
+		},
+		Oracles: func() []Oracle { return []Oracle{&AccountingOracle{}} },
+	}
 	Props["C02"] = PropDef{
 		Gen: func(t *rapid.T, thorough bool) *Script {
 			o := mixedOpts(thorough)
